@@ -88,7 +88,10 @@ def run_case(case):
     rng = gen.rng_for(*case['seed'])
     cls = case['cls']
     cov = {}
-    faces, meta = gen.gen_grid(rng, cls, nmin=1, nmax=case.get('nmax', 5))
+    gfam, gopts = gen.geo_opts(rng, case.get('geo'))
+    faces, meta = gen.gen_grid(rng, cls, nmin=1 if not case.get('geo') else 2, nmax=case.get('nmax', 5), family=gfam, opts=gopts)
+    if case.get('geo'):
+        cov['geo:' + case['geo']] = 1
     g = Geom(cls, faces)
     m = gen.build_mesh(pf, cls, faces)
     fam = case['field']
@@ -234,6 +237,8 @@ def plan(tier, seed):
         for fi, fam in enumerate(FIELDS):
             for i in range(per):
                 cases.append({'cls': cls, 'field': fam, 'seed': [seed, 11, ci, fi, i], 'nmax': 5 if NDIM[cls] < 3 else 4})
+            for i in range(per // 3):      # tiny / huge length units and almost-uniform spacing
+                cases.append({'cls': cls, 'field': fam, 'seed': [seed, 11, ci, fi, 10000 + i], 'nmax': 5 if NDIM[cls] < 3 else 4, 'geo': ['nano', 'jitter', 'mega'][i % 3]})
         if NDIM[cls] > 1:
             for i in range(per * 2):
                 cases.append({'kind': 'embed', 'cls': cls, 'seed': [seed, 11, ci, 99, i]})
@@ -251,6 +256,9 @@ def floors(agg, tier):
             out.append('cases:%s < %d' % (cls, need))
         if NDIM[cls] > 1 and agg['cov'].get('embed:' + cls, 0) < 10:
             out.append('embed:%s < 10' % cls)
+    for geo in ('nano', 'jitter', 'mega'):
+        if agg['cov'].get('geo:' + geo, 0) < 50:
+            out.append('geo:%s < 50' % geo)
     for name in ('linear', 'arith', 'geo', 'harm', 'upwind'):
         if agg['cov'].get('faces_checked:' + name, 0) < 1000:
             out.append('faces_checked:%s < 1000' % name)
